@@ -142,7 +142,7 @@ def script_cfgs(ctx, thorough, fix2):
     rng = ctx.rng
     M = lambda **kw: dict({"codec": "model", "guise": "long", "index": "end", "temp": "none", "page": 0, "res": 0,
                            "faults": True, "every": 1, "offset": 0, "kinds": []}, **kw)
-    sp = (lambda e: max(1, e // 4)) if thorough else (lambda e: e)   # thorough: denser sampling
+    sp = (lambda e: max(1, e // 2)) if thorough else (lambda e: e)   # thorough: denser sampling
     def off(e):
         return rng.randrange(sp(e))
     cf = [M(name="base")]
@@ -302,12 +302,19 @@ def run(ctx):
     # 4. the exhaustive script set
     def t_export():
         results["export"] = ctx.tlc("RacWriter", cfg="export.cfg", data={"export.cfg": impl_cfg(
-            maxlen, dsizes, cstored, crle, "maxmin" if thorough else "max", not bug1, 0, False, canonical, True,
+            maxlen, dsizes, cstored, crle, "max", not bug1, 0, False, canonical, True,
             ["TypeOK", "BetweenCalls", "Sticky", "Export"] + (["CloseOK", "ConservationX"] if not bug1 else []))},
             timeout=6000, workers=6, label="export scripts (MaxLen %d)" % maxlen)
 
+    # 5. every Cut choice (not only the longest prefix), on a smaller bound, CChunkSize modes only
+    def t_anycut():
+        results["anycut"] = ctx.tlc("RacWriter", cfg="anycut.cfg", data={"anycut.cfg": impl_cfg(
+            maxlen - 1, [], [3, 4], [4, 5], "any", not bug1, 0, False, canonical, True,
+            ["TypeOK", "BetweenCalls", "Sticky", "Export"] + (["CloseOK", "ConservationX"] if not bug1 else []))},
+            timeout=6000, workers=4, label="export scripts, every Cut choice (MaxLen %d)" % (maxlen - 1))
+
     errs = []
-    ths = [threading.Thread(target=(lambda f=f: _guard(f, errs))) for f in (t_fixed, t_asis, t_fault, t_export)]
+    ths = [threading.Thread(target=(lambda f=f: _guard(f, errs))) for f in (t_fixed, t_asis, t_fault, t_export, t_anycut)]
     for t in ths:
         t.start()
     for t in ths:
@@ -343,9 +350,13 @@ def run(ctx):
         return {"sid": sid, "kind": o["kind"], "n": o["n"], "codec": o["codec"], "calls": o["calls"], "cuts": o["cuts"],
                 "pchunks": o["pchunks"], "construct": o["construct"], "ios": o["ios"], "replies": o["replies"],
                 "faultat": o["faultat"], "conserved": o["conserved"]}
-    exported = [o for o in parse_tlc_prints(results["export"]["out"]) if isinstance(o, dict) and "calls" in o]
-    if results["export"]["violated"] or not results["export"]["finished"] or not exported:
-        raise ToolingError("script export failed (%s):\n%s" % (results["export"]["violated"], results["export"]["out"][-2500:]))
+    exported = []
+    for k in ("export", "anycut"):
+        got = [o for o in parse_tlc_prints(results[k]["out"]) if isinstance(o, dict) and "calls" in o]
+        if results[k]["violated"] or not results[k]["finished"] or not got:
+            raise ToolingError("script export failed (%s, %s):\n%s" % (k, results[k]["violated"], results[k]["out"][-2500:]))
+        exported += got
+    exported = list({json.dumps(o, sort_keys=True): o for o in exported}.values())
     exported.sort(key=lambda o: json.dumps(o, sort_keys=True))
     scripts = []
     if bug1 and cex:
@@ -552,7 +563,7 @@ def run(ctx):
                 "DChunkSize 1..3, small CChunkSizes x abstract codecs stored/rle x Cut choices %s); a script is non-trivial when it has >= 2 Write calls or "
                 ">= 2 chunks; every script runs on the base configuration and on seeded samples of %d other configurations; every run with faults enabled is "
                 "repeated with the k-th underlying call failing for every k" % (maxlen, " with first non-zero byte A" if canonical else "",
-                                                                            "max+min" if thorough else "max", len(cfgs) - 1),
+                                                                            "longest prefix; every choice up to length %d" % (maxlen - 1), len(cfgs) - 1),
         "exhaustive": True,
         "scripts": len(scripts),
         "scripts_reaching_known_construct": n_flag,
@@ -567,6 +578,8 @@ def run(ctx):
         "index_traces_judged": len(traces),
         "real_data_jobs": len(reals),
         "real_data_jobs_multi_chunk": nonzero_real,
+        "real_data_chunks_using_shared_resources": sum(r["resused"] for r in reals),
+        "real_data_bytes": sum(r["origlen"] for r in reals),
         "model_fidelity_base_cfg": [base_ok, base_total],
         "configurations": [c["name"] for c in cfgs],
         "tree": {K1: bool(bug1), K2: bool(bug2)},
@@ -594,19 +607,19 @@ def replay_fault_behaviours(ctx, binp, fb_scripts):
     model's expected replies is recorded (fidelity, not a verdict)."""
     base = {"name": "base", "codec": "model", "guise": "long", "index": "end", "temp": "none", "page": 0, "res": 0,
             "faults": True, "every": 1, "offset": 0, "kinds": []}
-    uniq = [dict(s, sid=i + 1, cuts=[], pchunks=[]) for i, s in enumerate(x for x in fb_scripts if x["faultat"] == 0)]
-    out = run_harness(ctx, binp, "scripts", {"scripts": uniq, "cfgs": [base]})
-    # fidelity: a model behaviour <<n calls, fault fires in call f, replies>> must be among the observed shapes
-    seen = {(sh["n"], sh["f"], sh["replies"]) for sh in out["shapes"]}
+    lit = [dict(s, pchunks=[]) for s in fb_scripts if s["faultat"] > 0]
+    out = run_harness(ctx, binp, "scripts", {"scripts": lit, "cfgs": [base]})
+    by_sid = {l["sid"]: l for l in out["literals"]}
     agree = total = 0
-    for s in fb_scripts:
-        f = next((i + 1 for i, x in enumerate(s["replies"]) if x == "err"), 0)
-        if s["faultat"] == 0 or f == 0:
-            continue
-        letters = "".join("O" if x == "ok" else "E" for x in s["replies"]) + "E"   # + the harness's second Close
+    for s in lit:
+        want = "".join("O" if x == "ok" else "E" for x in s["replies"]) + "E"     # + the harness's second Close
+        got = by_sid.get(s["sid"])
         total += 1
-        if (len(s["calls"]) + 2, f, letters) in seen:
+        if got and got["replies"] == want:
             agree += 1
+        elif total - agree <= 3:
+            ctx.log("note: model/code disagreement on a fault behaviour: %s mode n=%d calls %s fault point %d: model %s, code %s" % (
+                s["kind"], s["n"], ["".join(x) for x in s["calls"]], s["faultat"], want, got and got["replies"]))
     return {"shapes": out["shapes"], "stats": out["stats"], "agree": [agree, total]}
 
 
